@@ -192,3 +192,12 @@ def model_summary(model, limit=40):
         if len(out) >= limit:
             break
     return out
+
+
+def second_opinion(ob, seconds=15):
+    """the full query (path condition and negated goal) as SMT-LIB2 to cvc5: 'unsat' confirms, 'sat' is a disagreement"""
+    try:
+        text = smt2_of(ob.pc, ob.goal)
+    except Exception:
+        return "unknown"
+    return run_cli(["/usr/bin/cvc5", "--strings-exp", f"--tlimit={seconds * 1000}"], text, seconds)
